@@ -89,26 +89,27 @@ def count_timeout():
 
 @contextlib.contextmanager
 def time_limit(seconds):
-    """Like harness.time_limit, but the alarm repeats every 0.25 s until the block is left: a single Timeout can be
-    lost when it is raised inside a garbage-collector callback ("Exception ignored in ..."), and the code under
-    test would then run on without any limit."""
+    """Like harness.time_limit, but (1) it counts CPU time of this process (ITIMER_PROF), so that a loaded machine
+    does not turn slow cases into timeouts and runs stay reproducible, and (2) the alarm repeats every 0.25 s until
+    the block is left: a single Timeout can be lost when it is raised inside a garbage-collector callback
+    ("Exception ignored in ..."), and the code under test would then run on without any limit."""
     def handler(signum, frame):
         raise Timeout()
     if _timeouts[0] >= 3:
         # something makes the code under test diverge again and again (a mutant): do not spend the full limit each time
         seconds = min(seconds, 2)
-    old = signal.signal(signal.SIGALRM, handler)
-    signal.setitimer(signal.ITIMER_REAL, seconds, 0.25)
+    old = signal.signal(signal.SIGPROF, handler)
+    signal.setitimer(signal.ITIMER_PROF, seconds, 0.25)
     try:
         yield
     finally:
         while True:
             try:
-                signal.setitimer(signal.ITIMER_REAL, 0)
+                signal.setitimer(signal.ITIMER_PROF, 0)
                 break
             except Timeout:
                 continue
-        signal.signal(signal.SIGALRM, old)
+        signal.signal(signal.SIGPROF, old)
 
 
 # ---------------------------------------------------------------- exact evaluation (oracle side)
@@ -483,7 +484,7 @@ class _CountingDeque(collections.deque):
 
 
 def guarded_bb(fn, seconds=20):
-    """Run fn() (which calls simplex.branch_and_bound) under the node budget and a wall-clock backstop.
+    """Run fn() (which calls simplex.branch_and_bound) under the node budget and a CPU-time backstop.
     Returns ('ok', result) | ('budget', None) | ('timeout', None) | ('exc', exception)."""
     fired = [False]
 
@@ -495,14 +496,14 @@ def guarded_bb(fn, seconds=20):
             if f.f_code.co_name == 'branch_and_bound':
                 raise Timeout()            # swallowed by the bare except; kills the node that is spinning
             f = f.f_back
-        signal.setitimer(signal.ITIMER_REAL, 0)
+        signal.setitimer(signal.ITIMER_PROF, 0)
 
     _CountingDeque.popped = 0
     _CountingDeque.budget = BB_NODE_BUDGET
-    old = signal.signal(signal.SIGALRM, handler)
+    old = signal.signal(signal.SIGPROF, handler)
     if _timeouts[0] >= 3:
         seconds = min(seconds, 2)
-    signal.setitimer(signal.ITIMER_REAL, seconds, 0.05)
+    signal.setitimer(signal.ITIMER_PROF, seconds, 0.05)
     try:
         try:
             r = fn()
@@ -514,8 +515,8 @@ def guarded_bb(fn, seconds=20):
         except Exception as e:
             status = ('exc', e)
     finally:
-        signal.setitimer(signal.ITIMER_REAL, 0)
-        signal.signal(signal.SIGALRM, old)
+        signal.setitimer(signal.ITIMER_PROF, 0)
+        signal.signal(signal.SIGPROF, old)
         _CountingDeque.budget = 10 ** 9
     if fired[0]:
         return ('timeout', None)
@@ -740,6 +741,8 @@ SITE = {
 def site_of(ep, cls, feat):
     """Component a failure is filed under: the sat/unsat decision and the assignment of the two real macros are
     made by their SimplexHOLWrapper, so those failures of simplex_macro and SimplexHOLWrapper share a site."""
+    if feat == 'zero-coeff-jar' and ep in ('bb', 'simplex_hol'):
+        return SITE['simplex']          # Simplex.add_ineq drops the row
     if ep == 'simplex_macro' and (cls == 'wrong-answer' or feat == 'shared-lhs'):
         return SITE['simplex_hol']
     if ep == 'strict_macro' and (cls == 'wrong-answer' or feat == 'shared-lhs'):
@@ -1027,8 +1030,8 @@ def system_strategy(ep):
 
 
 # cases per entry point in the quick tier, and rough CPU cost of one case (ms) used to size and order the shards
-QUICK = {'omega_matrix': 8000, 'omega_hol': 700, 'simplex': 6000, 'strict': 4000, 'bb': 4000,
-         'simplex_hol': 1000, 'simplex_macro': 500, 'strict_macro': 150, 'int_macro': 300}
+QUICK = {'omega_matrix': 7000, 'omega_hol': 600, 'simplex': 6000, 'strict': 4000, 'bb': 4000,
+         'simplex_hol': 1000, 'simplex_macro': 500, 'strict_macro': 120, 'int_macro': 300}
 COST_MS = {'omega_matrix': 13, 'omega_hol': 190, 'simplex': 7, 'strict': 9, 'bb': 11,
            'simplex_hol': 35, 'simplex_macro': 110, 'strict_macro': 950, 'int_macro': 215}
 
